@@ -2,7 +2,7 @@
    model/Ridge.v with Gauss-Jordan in place of LAPACK, online readouts from model/Online.v) and compared with what
    reservoirpy's Model.fit / Model.train produced. *)
 From Coq Require Import List Arith Bool QArith.
-From RV Require Import base.Num base.LA model.Windows model.ModelSem model.Kinds model.Ridge model.Online model.FitSem.
+From RV Require Import base.Num base.LA model.Windows model.ModelSem model.Kinds model.Ridge model.Online model.FitSem model.FitFb.
 Import ListNotations.
 Close Scope Q_scope.
 
@@ -211,3 +211,48 @@ Definition chk_train_calls (tnodes : list (nat * tkind)) (order : list nat) (es 
            (k : nat) (expl : option (list nat * nat))
            (calls : list (list (list (nat * qv) * list (nat * qv)) * list (list qv) * list (nat * (qm * qv * qm)))) : bool :=
   chk_calls tnodes (to_tmodel order es online outs) k expl (q_env0 tnodes) calls.
+
+(* ---------------------------------------------------------------------------------------------- offline fit with feedback *)
+(* model/FitFb.v at Q: the forward nodes of every stage are executed step by step by ModelSem.forward on Kinds.kfwd *)
+Record fbnode := mkFN { fn_id : nat; fn_kind : option (kind (F:=Q)); fn_fb : option fbsrc; fn_odim : nat }.  (* kind None: a ridge readout *)
+Definition fn_nd (n : fbnode) : ndesc (F:=Q) :=
+  mkND (fn_id n) (match fn_kind n with Some k => kfwd k | None => fun _ _ _ _ => None end) (fn_fb n) (fn_odim n).
+Definition fb_env0 (nodes : list fbnode) : env (F:=Q) :=
+  fun v => match find (fun n => fn_id n =? v) nodes with
+           | Some n => mkNS (vzeros (fn_odim n)) []
+           | None => mkNS [] []
+           end.
+(* every output of node v during the fit, in call order: stages, then sequences, then timesteps *)
+Definition flat_traj (log : list (list (nat * qd))) (v : nat) : qm :=
+  concat (map (fun tr => match lookup tr v with Some d => concat d | None => [] end) log).
+
+(* Model.fit(X, Y, warmup=w, force_teachers=force, reset=reset) on a fresh model with feedback connections:
+   the staging; every recorded output of every forward node (hence every feedback value it received); Wout / bias *)
+Definition chk_fit_fb (nodes : list fbnode) (rds : list (rdesc (F:=Q))) (g : graph) (X Y : list (nat * qd)) (w : nat)
+           (force reset : bool) (lens : list nat) (obs_stg : list stage) (obs_traj : list (nat * qm))
+           (obs : list (nat * (qm * qv))) : bool :=
+  match get_offline_subgraphs g with Some stg => stages_eqb stg obs_stg | None => false end
+  && match fit_fb qsolve_tot (mkFM (map fn_nd nodes) g rds) obs_stg X Y w force reset lens (fb_env0 nodes) with
+     | Some (_, _, ps, _, log) =>
+         forallb (fun o => param_close (lookup ps (fst o)) (fst (snd o)) (snd (snd o))) obs
+         && forallb (fun o => mclose (flat_traj log (fst o)) (snd o)) obs_traj
+     | None => false
+     end.
+
+(* ESN(reservoir, readout).fit(X, Y, warmup=w) on a fresh ESN: reservoir node [res], readout [rd] (ids), against
+   1. esn_fit (the ESN code path) and 2. Model.fit of the same two nodes with force_teachers=True, reset=True *)
+Definition chk_esn_fit (res rdn : fbnode) (r : rdesc (F:=Q)) (X Y : list (nat * qd)) (w : nat) (lens : list nat)
+           (obs_traj : qm) (W : qm) (b : qv) : bool :=
+  let g := mkG [fn_id res; fn_id rdn] [(fn_id res, fn_id rdn)] [fn_id rdn] in
+  match esn_fit qsolve_tot (fn_nd res) (fn_nd rdn) r X Y w lens (fb_env0 [res; rdn]) with
+  | Some (p, x) => param_close (Some p) W b && mclose (concat x) obs_traj
+  | None => false
+  end
+  && match get_offline_subgraphs g with
+     | Some stg =>
+         match fit_fb qsolve_tot (mkFM [fn_nd res; fn_nd rdn] g [r]) stg X Y w true true lens (fb_env0 [res; rdn]) with
+         | Some (_, _, ps, _, log) => param_close (lookup ps (fn_id rdn)) W b && mclose (flat_traj log (fn_id res)) obs_traj
+         | None => false
+         end
+     | None => false
+     end.
